@@ -542,14 +542,13 @@ Section Recursion.
 
   (* from the class the MRO resolves (a variadic definer at level i): its own body is the first level-i body *)
   Lemma chain_counted_resolved h : forall idx mid st args l,
-    resolve h idx = Some (i, l) -> l_arity l < 0 ->
+    resolve h idx = Some (i, l) -> arity_ok l args = true ->
     counted i (steps st - 1) (call_chain rec h idx mid st args).
   Proof.
     unfold counted, res_status, res_events, res_state.
     induction h as [|l0 t IH]; intros idx mid st args l Hres Har; simpl in Hres; [discriminate|]. simpl.
     destruct (l_def l0); [|eapply IH; eassumption].
-    inversion Hres; subst idx l0.
-    assert (arity_ok l args = true) as -> by (unfold arity_ok; apply orb_true_iff; left; apply Z.ltb_lt; exact Har).
+    inversion Hres; subst idx l0. rewrite Har.
     replace (steps st - 1 + 1) with (steps st) by lia.
     assert (forall evs', tops i ({| e_inst := mid; e_lvl := i; e_seen := steps st; e_run := running st; e_args := args |} :: evs') = steps st :: tops i evs') as Htop.
     { intros evs'. unfold tops. simpl. rewrite Z.eqb_refl. reflexivity. }
@@ -585,14 +584,92 @@ End Recursion.
 (* one call of instance.step( *args), nested self.step() calls to any depth included: the bodies of the resolved
    (variadic) user step saw steps+1, steps+2, ..., final steps - so every call, outer or nested, was counted
    exactly once and before its user code ran, and the counter advanced by exactly the number of calls *)
-Theorem wrapped_counted fuel : forall h mid i l, resolve h 0 = Some (i, l) -> l_arity l < 0 ->
-  forall st args, counted i (steps st) (wrapped fuel h mid st args).
+Lemma arity_neg_ok l args : l_arity l < 0 -> arity_ok l args = true.
+Proof. intros H. unfold arity_ok. apply orb_true_iff. left. apply Z.ltb_lt. exact H. Qed.
+
+(* the resolved step accepts a call without arguments (variadic, or no parameters): nested self.step() calls run
+   the user step again *)
+Theorem wrapped_counted fuel : forall h mid i l, resolve h 0 = Some (i, l) -> arity_ok l [] = true ->
+  forall st args, arity_ok l args = true -> counted i (steps st) (wrapped fuel h mid st args).
 Proof.
-  induction fuel as [|f IH]; intros h mid i l Hres Har st args.
+  induction fuel as [|f IH]; intros h mid i l Hres Hnil st args Har.
   - unfold counted, res_status. simpl. intros H. exfalso. apply H. reflexivity.
   - simpl. pose proof (chain_counted_resolved (fun s => wrapped f h mid s []) i
-                         (fun s => IH h mid i l Hres Har s []) h 0 mid (incr st) args l Hres Har) as H.
+                         (fun s => IH h mid i l Hres Hnil s [] Hnil) h 0 mid (incr st) args l Hres Har) as H.
     replace (steps (incr st) - 1) with (steps st) in H by (simpl; lia). exact H.
+Qed.
+
+(* the resolved step has parameters: a nested self.step() is counted, rejected by the call protocol before any user
+   code, and the TypeError unwinds the whole outer call *)
+Section Rejecting.
+  Variable rec : mstate -> mstate * list event * status.
+  Hypothesis Hrej : forall s, rec s = (incr s, [], ErrType).
+
+  Lemma chain_rejecting h : forall idx mid st args,
+    let x := call_chain rec h idx mid st args in
+    Forall (fun e => e_seen e = steps st /\ e_inst e = mid) (res_events x) /\
+    (steps (res_state x) = steps st \/ (steps (res_state x) = steps st + 1 /\ res_status x = ErrType)).
+  Proof.
+    unfold res_events, res_state, res_status. induction h as [|l t IH]; intros idx mid st args; simpl.
+    - destruct args; cbn [fst snd]; split; [constructor|left; reflexivity|constructor|left; reflexivity].
+    - destruct (l_def l); [|apply IH].
+      destruct (arity_ok l args); [|cbn [fst snd]; split; [constructor|left; reflexivity]].
+      destruct (opt_is (l_raise l) (fun k => steps st =? k)).
+      { cbn [fst snd]. split; [constructor; [simpl; auto|constructor]|left; reflexivity]. }
+      destruct (opt_is (l_rec l) (fun k => steps st <? k)).
+      + rewrite Hrej. cbn [fst snd]. split; [constructor; [simpl; auto|constructor]|right; simpl; split; [lia|reflexivity]].
+      + destruct (l_super l).
+        * specialize (IH (idx + 1) mid st (if l_fwd l then args else [])).
+          destruct (call_chain rec t (idx + 1) mid st (if l_fwd l then args else [])) as [[st1 evs] r].
+          cbn [fst snd] in IH. destruct IH as [IH1 IH2].
+          destruct r; cbn [fst snd app]; (split; [constructor; [simpl; auto|exact IH1]|]);
+            try (destruct IH2 as [IH2|[IH2 IH3]]; [left; exact IH2|discriminate IH3 || (right; split; [exact IH2|reflexivity])]).
+          destruct IH2 as [IH2|[_ IH3]]; [|discriminate].
+          left. destruct (opt_is (l_stop l) (fun k => steps st1 >=? k)); cbn [clear_running steps]; exact IH2.
+        * cbn [fst snd app]. split; [constructor; [simpl; auto|constructor]|].
+          left. destruct (opt_is (l_stop l) (fun k => steps st >=? k)); reflexivity.
+  Qed.
+End Rejecting.
+
+Theorem wrapped_step_fixed_arity h mid i l st args :
+  resolve h 0 = Some (i, l) -> arity_ok l [] = false ->
+  let x := wrapped_step h mid st args in
+  Forall (fun e => e_seen e = steps st + 1 /\ e_inst e = mid) (res_events x) /\
+  (steps (res_state x) = steps st + 1 \/ (steps (res_state x) = steps st + 2 /\ res_status x = ErrType)).
+Proof.
+  intros Hres Hrej x.
+  assert (forall s, wrapped (pred CALL_FUEL) h mid s [] = (incr s, [], ErrType)) as Hr.
+  { intros s. change (wrapped (pred CALL_FUEL) h mid s []) with
+      (call_chain (fun s' => wrapped (pred (pred CALL_FUEL)) h mid s' []) h 0 mid (incr s) []).
+    pose proof (chain_head (fun s' => wrapped (pred (pred CALL_FUEL)) h mid s' []) h 0 mid (incr s) [] i l Hres) as H.
+    rewrite Hrej in H. destruct H as [H1 [H2 H3]].
+    destruct (call_chain (fun s' => wrapped (pred (pred CALL_FUEL)) h mid s' []) h 0 mid (incr s) []) as [[s1 e] r].
+    unfold res_events, res_status, res_state in *. cbn [fst snd] in *. subst. reflexivity. }
+  unfold x. rewrite wrapped_step_unfold.
+  pose proof (chain_rejecting _ Hr h 0 mid (incr st) args) as [H1 H2]. cbn [incr steps] in H1, H2.
+  split; [exact H1|]. destruct H2 as [H2|[H2 H3]]; [left; exact H2|right; split; [lia|exact H3]].
+Qed.
+
+Corollary wrapped_step_counted_gen h mid i l st args :
+  resolve h 0 = Some (i, l) -> arity_ok l [] = true -> arity_ok l args = true ->
+  res_status (wrapped_step h mid st args) <> OutOfFuel ->
+  tops i (res_events (wrapped_step h mid st args)) = zrange (steps st + 1) (steps (res_state (wrapped_step h mid st args))) /\
+  steps st + 1 <= steps (res_state (wrapped_step h mid st args)) /\
+  steps (res_state (wrapped_step h mid st args)) = steps st + Z.of_nat (length (tops i (res_events (wrapped_step h mid st args)))).
+Proof.
+  intros Hres Hnil Ea Hs.
+  destruct (wrapped_counted CALL_FUEL h mid i l Hres Hnil st args Ea Hs) as [H1 H2].
+  fold (wrapped_step h mid st args) in H1, H2.
+  assert (steps st + 1 <= steps (res_state (wrapped_step h mid st args))) as H3.
+  { pose proof (chain_head (fun s => wrapped (pred CALL_FUEL) h mid s []) h 0 mid (incr st) args i l Hres) as Hh.
+    rewrite Ea in Hh. destruct Hh as [e [rest [He [Hl [_ [Hseen _]]]]]].
+    rewrite <- wrapped_step_unfold in He.
+    destruct (Z_le_gt_dec (steps st + 1) (steps (res_state (wrapped_step h mid st args)))) as [Hle|Hgt]; [exact Hle|].
+    exfalso. rewrite He in H1. unfold tops in H1. simpl in H1. rewrite Hl, Z.eqb_refl in H1. simpl in H1.
+    unfold zrange in H1. replace (Z.to_nat (steps (res_state (wrapped_step h mid st args)) - (steps st + 1) + 1)) with 0%nat in H1 by lia.
+    discriminate. }
+  split; [exact H1|]. split; [exact H3|].
+  rewrite H1. unfold zrange. rewrite map_length, seq_length. lia.
 Qed.
 
 Corollary wrapped_step_counted h mid i l st args :
@@ -602,17 +679,5 @@ Corollary wrapped_step_counted h mid i l st args :
   steps st + 1 <= steps (res_state (wrapped_step h mid st args)) /\
   steps (res_state (wrapped_step h mid st args)) = steps st + Z.of_nat (length (tops i (res_events (wrapped_step h mid st args)))).
 Proof.
-  intros Hres Har Hs. destruct (wrapped_counted CALL_FUEL h mid i l Hres Har st args Hs) as [H1 H2].
-  fold (wrapped_step h mid st args) in H1, H2.
-  assert (steps st + 1 <= steps (res_state (wrapped_step h mid st args))) as H3.
-  { pose proof (chain_head (fun s => wrapped (pred CALL_FUEL) h mid s []) h 0 mid (incr st) args i l Hres) as Hh.
-    assert (arity_ok l args = true) as Ea by (unfold arity_ok; apply orb_true_iff; left; apply Z.ltb_lt; exact Har).
-    rewrite Ea in Hh. destruct Hh as [e [rest [He [Hl [_ [Hseen _]]]]]].
-    rewrite <- wrapped_step_unfold in He.
-    destruct (Z_le_gt_dec (steps st + 1) (steps (res_state (wrapped_step h mid st args)))) as [Hle|Hgt]; [exact Hle|].
-    exfalso. rewrite He in H1. unfold tops in H1. simpl in H1. rewrite Hl, Z.eqb_refl in H1. simpl in H1.
-    unfold zrange in H1. replace (Z.to_nat (steps (res_state (wrapped_step h mid st args)) - (steps st + 1) + 1)) with 0%nat in H1 by lia.
-    discriminate. }
-  split; [exact H1|]. split; [exact H3|].
-  rewrite H1. unfold zrange. rewrite map_length, seq_length. lia.
+  intros Hres Har. apply (wrapped_step_counted_gen h mid i l); [exact Hres|apply arity_neg_ok; exact Har|apply arity_neg_ok; exact Har].
 Qed.
